@@ -41,6 +41,7 @@ def generate(ctx):
         else:
             d["trainable_feedback"] = rng.random() < 0.5
             d["transforms"] = rng.random() < 0.4
+            d["in_transforms"] = rng.random() < 0.4
             d["prefire_neurons"] = rng.random() < 0.5          # build the layer around neuron groups that just spiked
             d["partial_clear_at"] = rng.choice([None, 2, 3, 4])  # clear(submodules=False) in the middle of the run
         yield d
@@ -137,6 +138,9 @@ def _layer(desc, parts):
     kw = {}
     if desc["transforms"]:
         kw = dict(feedfwd_out_transform=_double, feedback_out_transform=lambda x: x * 0.5, lateral_out_transform=_double)
+    if desc.get("in_transforms"):
+        # documented: applied to the spikes before they enter the lateral / feedback connection (one-to-many: a tuple)
+        kw.update(lateral_in_transform=lambda s: (~s,), feedback_in_transform=lambda s: (s.roll(1, -1),))
     return neural.RecurrentSerial(parts.conns["feedfwd"], parts.conns["lateral"], parts.conns["feedback"],
                                   parts.neurons["feedfwd"], parts.neurons["feedback"],
                                   trainable_feedback=desc["trainable_feedback"], **kw,
@@ -211,13 +215,13 @@ class _Hand:
         if self.fb_spikes is None:
             self.fb_spikes = torch.zeros((d["B"],) + tuple(fbn.shape), dtype=torch.bool)
         cff = p.conns["feedfwd"](*x)
-        cfb = p.conns["feedback"](self.fb_spikes)
+        cfb = p.conns["feedback"](self.fb_spikes.roll(1, -1) if d.get("in_transforms") else self.fb_spikes)
         if d["transforms"]:
             drive = cff * 2.0 + cfb * 0.5
         else:
             drive = cff + cfb
         sff = ffn(drive)
-        clat = p.conns["lateral"](sff)
+        clat = p.conns["lateral"](~sff if d.get("in_transforms") else sff)
         sfb = fbn(clat * 2.0 if d["transforms"] else clat, **(_NKW if d.get("nkw") else {}))
         self.fb_spikes = sfb
         return {"feedfwd": sff, "feedback": sfb}, {"feedfwd": cff, "feedback": cfb, "lateral": clat}
